@@ -282,11 +282,22 @@ Definition co_pop (k : nat) (lens : list nat) (s : state) : cres * list (list Z)
   let '(e, vs, s') := pop_loop k (rev lens) [] s in
   if is_success e then (COk, vs, s') else (CErr e, [], s').
 
-(* coroutine.resume(co, ...) up to the moment control is transferred *)
+(* coroutine.resume(co, ...) up to the moment control is transferred.  Repaired code (RESUME_ROLLS_BACK_ARGS =
+   true, 6a782fc): when minicoro.resume refuses, the bytes of the arguments are popped again
+   (minicoro.pop(co, nilptr, <sum of the argument sizes>), result ignored); the old behaviour (arguments stay
+   pushed) is kept under the scraped flag so that a revert changes the model and breaks the proofs. *)
 Definition co_resume (k : nat) (vals : list (list Z)) (s : state) : cres * state :=
   let '(r1, s1) := match vals with [] => (COk, s) | _ => co_push k vals s end in
   match r1 with
-  | COk => let '(e, s2) := mco_resume k s1 in (cres_of e, s2)
+  | COk =>
+    let '(e, s2) := mco_resume k s1 in
+    if is_success e then (COk, s2)
+    else if RESUME_ROLLS_BACK_ARGS then
+      match vals with
+      | [] => (CErr e, s2)
+      | _ => let '(_, s3, _) := mco_pop k false (List.length (List.concat vals)) s2 in (CErr e, s3)
+      end
+    else (CErr e, s2)
   | _ => (r1, s1)
   end.
 
